@@ -223,6 +223,50 @@ Section WithFold.
     destruct e as [g|m]; cbn [run_events List.filter length]; rewrite IH; reflexivity.
   Qed.
 
+  (* registrations made later never take a request away from a route that
+     already matches it: precedence is by registration order and nothing else *)
+  Lemma first_match_app_some rs rs' m h :
+    first_match eqfold rs m = Some h -> first_match eqfold (rs ++ rs') m = Some h.
+  Proof.
+    induction rs as [|[r h0] rs IH]; cbn [first_match app]; [discriminate|].
+    destruct (matches eqfold r m); auto.
+  Qed.
+
+  Lemma first_match_app_none rs rs' m :
+    first_match eqfold rs m = None -> first_match eqfold (rs ++ rs') m = first_match eqfold rs' m.
+  Proof.
+    induction rs as [|[r h0] rs IH]; cbn [first_match app]; [reflexivity|].
+    destruct (matches eqfold r m); [discriminate|auto].
+  Qed.
+
+  Theorem serve_stable_under_registration tagfix mx g m h :
+    first_match eqfold (routes mx) m = Some h ->
+    serve eqfold tagfix (fst (register mx g)) m = Run h.
+  Proof.
+    intros H. unfold serve.
+    destruct g as [r [h'|]|[h'|]|[h'|]]; cbn [register fst routes];
+      rewrite ?(first_match_app_some _ _ _ _ H), ?H; reflexivity.
+  Qed.
+
+  Theorem serve_stable_under_registrations tagfix gs : forall mx m h,
+    first_match eqfold (routes mx) m = Some h ->
+    serve eqfold tagfix (fold_left (fun m g => fst (register m g)) gs mx) m = Run h.
+  Proof.
+    induction gs as [|g gs IH]; intros mx m h H; cbn [fold_left].
+    - unfold serve. rewrite H. reflexivity.
+    - apply IH. destruct g as [r [h'|]|[h'|]|[h'|]]; cbn [register fst routes]; auto using first_match_app_some.
+  Qed.
+
+  (* a default route registered at any time is used only when no route matches;
+     a route registered after it still takes precedence over it *)
+  Theorem serve_route_beats_default tagfix mx r h d m :
+    first_match eqfold (routes mx) m = None -> matches eqfold r m = true ->
+    serve eqfold tagfix (fst (register (fst (register mx (RegDefault (Some d)))) (RegRoute r (Some h)))) m = Run h.
+  Proof.
+    intros Hn Hm. unfold serve. cbn [register fst routes].
+    rewrite (first_match_app_none _ _ _ Hn). cbn [first_match]. rewrite Hm. reflexivity.
+  Qed.
+
   (* the pinned refusal was an ExtendedResponse for every operation *)
   Lemma serve_refusal_pinned_refuted :
     exists resp, serve eqfold false mux_empty (MSearch 2 [] 0 0 0 0 false [] [] []) = Refuse resp /\
